@@ -115,7 +115,10 @@ class FiberSum(symexec.Summariser):
 
     def bind(self, fn, n, p, g):
         syms = {}
-        for pid, a in zip(g.params, n['args']):
+        args = n['args']
+        if n['k'] == 'CXXOperatorCallExpr' and g.cls and len(args) == len(g.params) + 1:
+            args = args[1:]       # `Self() |= arg`: the first argument of a member operator call is the object
+        for pid, a in zip(g.params, args):
             syms[pid] = self.expr(fn, a, p)
         return syms
 
